@@ -278,7 +278,9 @@ def names_round(rep, r, tier, tmp):
     import nibabel as nb
     lists = [['x-002', 'x', 'x'], ['x', 'x', 'x'], ['a', 'a-001', 'a'], ['p-001', 'p', 'p', 'p'], ['q-003', 'q-002', 'q', 'q', 'q'],
              # names that differ only in characters the path sanitiser replaces
-             ['T2 tse', 'T2_tse'], ['a/b', 'a_b', 'a b'], ['m:1', 'm_1', 'm_1-001']]
+             ['T2 tse', 'T2_tse'], ['a/b', 'a_b', 'a b'], ['m:1', 'm_1', 'm_1-001'],
+             # letters and digits outside ASCII are replaced too (the names are meant to be portable path components)
+             ['caf\u00e9', 'caf_'], ['t\u00b2', 't_', 't\u00b3']]
     for ci in range(len(lists) if tier == 'quick' else 30):
         src = os.path.join(tmp, 'names%d' % ci)
         os.makedirs(src)
@@ -296,6 +298,12 @@ def names_round(rep, r, tier, tmp):
         rep.evaluations += 1
         rep.count('cli/names')
         rep.nontriv(['names', protos])
+        allowed = set('abcdefghijklmnopqrstuvwxyzABCDEFGHIJKLMNOPQRSTUVWXYZ0123456789-_.')
+        odd = [os.path.basename(o) for o in outs if set(os.path.basename(o)) - allowed]
+        if odd:
+            rep.failure('dcmstack wrote files named %s for groups named %s: characters outside ASCII letters, digits and -_. '
+                        'are to be replaced by _ in the generated name' % (odd, protos),
+                        {'tag': 'cli:dcmstack:names:sanitise', 'suite': 'cli', 'protocols': protos})
         if rc != 0 or len(outs) != len(protos):
             rep.failure('dcmstack wrote %d files for %d groups named %s (a name was reused and a file overwritten)' % (len(outs), len(protos), protos),
                         {'tag': 'cli:dcmstack:names:' + ('suffix-clash' if any('-00' in p for p in protos) else 'plain'), 'suite': 'cli', 'protocols': protos})
@@ -480,6 +488,35 @@ def nitool_round(rep, r, tier, tmp):
                                 dict(C, tag='nitool:merge-order', dim=dim2, perm=perm))
             except Exception as e:
                 rep.failure('nitool merge (permuted inputs): %r' % e, dict(C, tag='nitool:merge-order', dim=dim2))
+            # --sort KEY: the inputs are merged in the order of the *values* of the key (numbers as numbers: 9 before 10 before 100)
+            sortvals = r.sample([2, 9, 10, 11, 100, 33, 1000, 5], len(api2)) if len(api2) <= 8 else list(range(len(api2)))
+            if r.random() < 0.3:
+                sortvals = [x + 0.5 for x in sortvals]
+            sdir = os.path.join(d, 'sorted'); os.makedirs(sdir)
+            sort_paths = []
+            for j, i in enumerate(perm):
+                with contextlib.redirect_stdout(io.StringIO()):
+                    piece = NiftiWrapper.from_filename(args_paths[j])
+                    piece.meta_ext.get_class_dict(('global', 'const'))['SortKey'] = sortvals[j]
+                    dst = os.path.join(sdir, 'in%02d.nii.gz' % j)
+                    piece.to_filename(dst)
+                sort_paths.append(dst)
+            outp = os.path.join(d, 'merged_sorted.nii.gz')
+            rc, out = nitool(['merge', outp, '-d', str(dim2), '-s', 'SortKey'] + sort_paths)
+            rep.evaluations += 1
+            rep.count('cli/nitool-merge-sorted')
+            try:
+                with contextlib.redirect_stdout(io.StringIO()):
+                    mw = NiftiWrapper.from_filename(outp)
+                    ordered = [sort_paths[j] for j in sorted(range(len(sort_paths)), key=lambda j: sortvals[j])]
+                    am = NiftiWrapper.from_sequence([NiftiWrapper.from_filename(x) for x in ordered], dim2)
+                if not np.array_equal(np.asanyarray(mw.nii_img.dataobj), np.asanyarray(am.nii_img.dataobj)) or \
+                        mw.meta_ext.to_json() != am.meta_ext.to_json():
+                    rep.failure('nitool merge -s SortKey over inputs whose SortKey is %s writes something else than NiftiWrapper.from_sequence '
+                                'of the inputs in the order of those values' % (sortvals,),
+                                dict(C, tag='nitool:merge-sort', dim=dim2, sortvals=sortvals))
+            except Exception as e:
+                rep.failure('nitool merge -s: %r' % e, dict(C, tag='nitool:merge-sort', dim=dim2, sortvals=sortvals))
         # ---- inject
         ext = w.meta_ext
         valid = [M.CLS[tuple(c)] for c in ext.get_valid_classes()]
